@@ -34,6 +34,9 @@ use rs_matter::persist::KvBlobStore;
 use rs_matter::utils::storage::pooled::{Buffers, PooledBuffers};
 use rsm_harness::{Digest, Rng};
 
+#[path = "../c13_e2e.rs"]
+mod c13_e2e;
+
 const N: usize = 4;
 type Pool = PooledBuffers<IMBuffer, 6>;
 type Ctx = ReportContext<'static, 'static, Pool, N>;
@@ -480,7 +483,75 @@ impl Machine {
     }
 }
 
+// ------------------------------------------------------------------ event queue (stream V)
+
+const VCAP: usize = 256;
+
+struct EvMachine {
+    matter: rs_matter::Matter<'static>,
+    events: Box<rs_matter::im::events::Events<VCAP>>,
+}
+
+impl EvMachine {
+    fn new() -> Self {
+        EvMachine {
+            matter: rsm_harness::e2e::new_matter(rsm_harness::e2e::dev_det(None, None), false),
+            events: Box::new(rs_matter::im::events::Events::new()),
+        }
+    }
+
+    /// pushes an event with `pay` bytes of payload; (accepted, dump text, encoded length of the new event)
+    fn push(&self, prio: u64, pay: usize) -> (bool, String, Option<usize>) {
+        use rs_matter::tlv::TLVWrite;
+        let kv = self.matter.kv(rs_matter::persist::DummyKvBlobStore);
+        let prio_e = match prio {
+            0 => rs_matter::im::EventPriority::Debug,
+            1 => rs_matter::im::EventPriority::Info,
+            _ => rs_matter::im::EventPriority::Critical,
+        };
+        let fill = vec![0x44u8; pay];
+        let r = self.events.verif_push_at(1, 10, 1, prio_e, 77, &kv, |mut tw| {
+            tw.str(&rs_matter::im::events::EVENT_DATA_TAG, &fill)
+        });
+        let dump = self.events.verif_dump();
+        let tier = |t: u8| {
+            dump.iter()
+                .filter(|e| e.0 == t)
+                .map(|e| format!("{}.{}.{}", e.1, e.2, e.3))
+                .collect::<Vec<_>>()
+                .join(",")
+        };
+        let text = format!("c[{}]i[{}]d[{}]n{}", tier(2), tier(1), tier(0), self.events.verif_next_event_number());
+        let len = if r.is_ok() { dump.iter().filter(|e| e.0 == 0).last().map(|e| e.3) } else { None };
+        (r.is_ok(), text, len)
+    }
+}
+
+fn run_v(line: &str, out: &mut String) {
+    let f: Vec<&str> = line.split(' ').filter(|t| !t.is_empty()).collect();
+    let m = EvMachine::new();
+    write!(out, "V {}", f[1]).unwrap();
+    for tok in &f[2..] {
+        let p: Vec<u64> = tok.split(':').map(|x| x.parse().unwrap()).collect();
+        let (ok, text, len) = m.push(p[0], p[1] as usize);
+        // the length the case was generated with must be the one the encoder produces
+        let tag = match len {
+            Some(l) if l as u64 != p[2] => "?",
+            _ if ok => "+",
+            _ => "!",
+        };
+        write!(out, " {}{}", tag, text).unwrap();
+    }
+    out.push('\n');
+}
+
 fn run_line(line: &str, out: &mut String) {
+    if line.starts_with("V ") {
+        return run_v(line, out);
+    }
+    if line.starts_with("U ") {
+        return c13_e2e::run_scenario(line, out);
+    }
     let mut it = line.split(' ');
     if it.next() != Some("Q") {
         return;
@@ -958,8 +1029,165 @@ fn generate(tier: &str, seed: u64) -> (Vec<String>, BTreeMap<String, u64>) {
             cases.push(line);
         }
     }
+    // ---- stream V: the event queue alone (capacity 256), random priorities and sizes; the encoded length
+    // of every event is measured on the real encoder while generating
+    let nv = 300 * scale;
+    for i in 0..nv {
+        let mut r = Rng::new(rng.next());
+        let m = EvMachine::new();
+        let mut line = format!("V v{}", i);
+        let profile = r.below(4);
+        for _ in 0..r.range(4, 40) {
+            let prio = match profile {
+                0 => r.below(3),
+                1 => *r.pick(&[0u64, 0, 0, 1, 2]),
+                2 => *r.pick(&[1u64, 1, 2, 2, 2]),
+                _ => 1,
+            };
+            let pay = match r.below(12) {
+                0 => r.range(200, 300),
+                1 => r.range(150, 230),
+                _ => r.range(0, 90),
+            } as usize;
+            let (ok, _, len) = m.push(prio, pay);
+            let len = len.unwrap_or(if ok { 0 } else { pay + 1000 });
+            write!(line, " {}:{}:{}", prio, pay, len).unwrap();
+        }
+        *hist.entry("cases_v".into()).or_insert(0) += 1;
+        cases.push(line);
+    }
+    // ---- stream U: end-to-end scenarios (two real nodes, real clock); see c13_e2e.rs for the steps
+    for (i, l) in gen_e2e(&mut rng, tier).into_iter().enumerate() {
+        *hist.entry("cases_u".into()).or_insert(0) += 1;
+        cases.push(format!("U u{} {}", i, l));
+    }
     hist.extend(lens);
     (cases, hist)
+}
+
+/// the scripted and random end-to-end scenarios
+fn gen_e2e(rng: &mut Rng, tier: &str) -> Vec<String> {
+    const ALL: u64 = 16777215;
+    let reps = if tier == "thorough" { 12 } else { 1 };
+    let mut v = Vec::new();
+    let mask = |r: &mut Rng| -> (u64, Vec<u64>) {
+        let mut ks = Vec::new();
+        let mut m = 0u64;
+        for _ in 0..r.range(1, 5) {
+            let k = r.below(24);
+            if m & (1 << k) == 0 {
+                m |= 1 << k;
+                ks.push(k);
+            }
+        }
+        (m, ks)
+    };
+    for _ in 0..reps {
+        // a change while a chunked (wildcard) priming is unanswered, before and after the chunk that carries it
+        for _ in 0..10 {
+            let (k1, k2, k3) = (rng.below(24), rng.below(24), rng.below(24));
+            let mid = *rng.pick(&["a", "a a", "a a a"]);
+            v.push(format!("L s:0:60:{}:1:0 c:{} {} c:{} c:{} A q", ALL, k1, mid, k2, k3));
+        }
+        // changes between a report and its StatusResponse
+        for _ in 0..12 {
+            let (m, ks) = mask(rng);
+            let (a, b) = (*rng.pick(&ks), *rng.pick(&ks));
+            v.push(format!("L s:0:60:{}:1:0 A c:{} r:100 c:{} c:{} k c:{} q", m, a, b, a, b));
+        }
+        // changes while the device retransmits a report into a lossy network
+        for _ in 0..8 {
+            let (m, ks) = mask(rng);
+            let (a, b) = (*rng.pick(&ks), *rng.pick(&ks));
+            v.push(format!("L s:0:60:{}:1:0 A m:{} c:{} c:{} c:{} r:400 K q", m, rng.range(1, 3), a, b, a));
+        }
+        // the peer subscribes anew (not keeping its subscriptions) while a report is in flight
+        for _ in 0..8 {
+            let (m1, k1) = mask(rng);
+            let (m2, k2) = mask(rng);
+            let (a, b) = (*rng.pick(&k1), *rng.pick(&k2));
+            let order = *rng.pick(&["A k", "a k A", "A K"]);
+            v.push(format!("L s:0:60:{}:1:0 A c:{} r:100 s:0:60:{}:0:0 {} c:{} q c:{} q", m1, a, m2, order, b, b));
+        }
+        // a second subscription (kept) next to the first, different minimum intervals
+        for _ in 0..4 {
+            let (m1, k1) = mask(rng);
+            let a = *rng.pick(&k1);
+            v.push(format!("L s:0:60:{}:1:0 A s:1:60:{}:1:0 A c:{} r:100 K c:{} q:1300", m1, m1 | 1, a, a));
+        }
+        // the subscriber ends the subscription with InvalidSubscription
+        for _ in 0..4 {
+            let (m, ks) = mask(rng);
+            let a = *rng.pick(&ks);
+            v.push(format!("L s:0:60:{}:1:0 A c:{} r:100 n c:{} r:60 q", m, a, a));
+        }
+        // events: emitted during priming, between report and status, in bursts
+        for _ in 0..10 {
+            let (m, ks) = mask(rng);
+            let a = *rng.pick(&ks);
+            v.push(format!(
+                "L e:1 s:0:60:{}:1:1 e:{} A e:{} r:100 e:{} c:{} e:{} K q",
+                m,
+                rng.below(3),
+                rng.below(3),
+                rng.below(3),
+                a,
+                rng.below(3)
+            ));
+        }
+        // a small event buffer: events evicted while the subscriber holds a report back
+        for _ in 0..6 {
+            let n = rng.range(6, 12);
+            let burst: Vec<String> = (0..n).map(|_| format!("e:{}", *rng.pick(&[0u64, 0, 1]))).collect();
+            v.push(format!("S s:0:60:1:1:1 A e:0 r:100 {} K q", burst.join(" ")));
+        }
+        // minimum interval edges (1 s): a change right after the priming, and right after a report
+        for _ in 0..4 {
+            let (m, ks) = mask(rng);
+            let (a, b) = (*rng.pick(&ks), *rng.pick(&ks));
+            v.push(format!("L s:1:60:{}:1:0 A c:{} r:{} r:1300 K c:{} r:300 q:1200", m, a, rng.range(100, 800), b));
+        }
+        // the subscriber falls silent during a report: the device gives up, backs off 2 s, retries with the same content
+        for _ in 0..3 {
+            let (m, ks) = mask(rng);
+            let (a, b) = (*rng.pick(&ks), *rng.pick(&ks));
+            v.push(format!("L s:0:60:{}:1:0 A c:{} r:100 x c:{} r:3000 K q", m, a, b));
+        }
+        // free interleavings of the steps
+        for _ in 0..40 {
+            let (m, ks) = mask(rng);
+            let wild = rng.chance(1, 4);
+            let ev = rng.below(2);
+            let mut s = format!("L s:0:60:{}:1:{}", if wild { ALL } else { m }, ev);
+            let mut primed = false;
+            for _ in 0..rng.range(6, 16) {
+                let k = if wild { rng.below(24) } else { *rng.pick(&ks) };
+                let step = match rng.below(12) {
+                    0..=3 => format!("c:{}", k),
+                    // (events only for a subscription that asked for them: a report that turns out empty is
+                    // not sent, and what the reporter did cannot be told from outside)
+                    4 if ev == 1 => format!("e:{}", rng.below(3)),
+                    4 => format!("c:{}", k),
+                    5 => "a".to_string(),
+                    6 => {
+                        primed = true;
+                        "A".to_string()
+                    }
+                    7 => "r:60".to_string(),
+                    8 => "k".to_string(),
+                    9 => "K".to_string(),
+                    10 => format!("m:{}", rng.range(1, 2)),
+                    _ => format!("w:{}", rng.range(1, 30)),
+                };
+                s.push(' ');
+                s.push_str(&step);
+            }
+            let _ = primed;
+            s.push_str(" A q");
+            v.push(s);
+        }
+    }
+    v
 }
 
 fn main() {
@@ -990,8 +1218,33 @@ fn main() {
             let mut out = String::new();
             let stdout = std::io::stdout();
             let mut lock = stdout.lock();
+            rsm_harness::silence_panics();
             for line in text.lines() {
-                run_line(line, &mut out);
+                // a panic in the code under test (or in the rig) is an outcome of the case, not of the run
+                let mut one = String::new();
+                let r = std::panic::catch_unwind(std::panic::AssertUnwindSafe(|| run_line(line, &mut one)));
+                match r {
+                    Ok(()) => out.push_str(&one),
+                    Err(e) => {
+                        let msg = e
+                            .downcast_ref::<&str>()
+                            .map(|s| s.to_string())
+                            .or_else(|| e.downcast_ref::<String>().cloned())
+                            .unwrap_or_else(|| "panic".to_string())
+                            .replace([' ', '|', '~'], "_");
+                        let f: Vec<&str> = line.split(' ').collect();
+                        if f.len() >= 2 {
+                            match f[0] {
+                                "U" => writeln!(out, "U {} panic:{} | |", f[1], msg).unwrap(),
+                                "V" => writeln!(out, "V {} panic:{}", f[1], msg).unwrap(),
+                                _ => {
+                                    writeln!(out, "Q {} panic:{} | -", f[1], msg).unwrap();
+                                    writeln!(out, "T {} panic:{}", f[1], msg).unwrap();
+                                }
+                            }
+                        }
+                    }
+                }
                 if out.len() > 1 << 20 {
                     lock.write_all(out.as_bytes()).unwrap();
                     out.clear();
